@@ -23,7 +23,9 @@ results = {}
 try:
     for c in checks:
         t = time.time()
-        p = subprocess.run(["./check", c, "--tier", tier], cwd="/verif", capture_output=True, text=True)
+        os.makedirs("/tmp/jfv_seed_evidence", exist_ok=True)
+        p = subprocess.run(["./check", c, "--tier", tier], cwd="/verif", capture_output=True, text=True,
+                           env=dict(os.environ, JFV_EVIDENCE_DIR="/tmp/jfv_seed_evidence"))
         lines = [l for l in p.stdout.splitlines() if l.startswith(("VIOLATION", "  key=", "HARNESS"))][:4]
         results[c] = {"exit": p.returncode, "tier": tier, "wall_s": round(time.time() - t, 1), "first_lines": lines}
         print(seed, c, "exit", p.returncode, "%.1fs" % (time.time() - t))
